@@ -81,6 +81,7 @@ def backendCap (nIndices : Nat) : String → Option Nat
   | "mutref" => some nIndices
   | "builtin_arc" => some nIndices
   | "user" => some (2 ^ 32 - 1)
+  | "user_fwd" => some (2 ^ 32 - 1)
   | _ => none
 
 end Cst.Drv
